@@ -119,7 +119,7 @@ def gen_case(rng, tier):
     pool = [gen_obj(rng, base, unit, grid) for _ in range(rng.randint(2, 5))]
     ops = []
     n = len(pool)
-    for _ in range(rng.randint(1, 15)):
+    for _ in range(rng.randint(1, 15 if tier == "quick" else 40)):
         kind = rng.choice(("add", "add", "sub", "sub", "neg", "mul", "rmul", "div", "snap", "lc", "avg", "replay"))
         op = {"op": kind, "client": rng.randrange(3)}
         if kind in ("add", "sub"):
